@@ -1003,7 +1003,11 @@ impl Tamper {
     fn attack_group_info(&mut self, w: &mut World, from: usize, gi: &MlsMessage) {
         let Ok(bytes) = gi.to_bytes() else { return };
         let tree = w.g(from).export_tree().into_owned();
-        let has_tree_ext = bytes.len() > tree.to_bytes().map(|b| b.len()).unwrap_or(0);
+        // ratchet_tree extension (type 2) present in the GroupInfo?
+        let has_tree_ext = gi
+            .as_group_info()
+            .map(|g| g.extensions().has_extension(mls_rs_core::extension::ExtensionType::new(2)))
+            .unwrap_or(false);
         let n = self.sweeps.entry("group_info".into()).or_insert(0);
         let sweep = *n < self.max_sweeps;
         if sweep {
